@@ -20,11 +20,12 @@ RULE = ('Complete enumeration of the finite domains, dumped from the real tables
         'complement is an involution that fixes S, W, N, -) are checked on the dumped values.  The same dump is repeated under '
         'Miri (undefined-behaviour interpreter).  Uses through the command line: one k-mer observed with every non-empty '
         'subset of middle bases in every order (64 orderings) through `ska build`, and `ska map` through every code on the '
-        'reverse strand.  Non-trivial: a table cell / function value whose expected value is not the default; distinct = cell.')
+        'reverse strand (alone, and again on the other strand further along the reference), and `ska distance --allow-ambiguous` on tables holding every code in 2..7 samples, compared with 1 - sum p_a p_b for uniform weights (N without weight; rows constant over all samples left out).  Non-trivial: a table cell / function value whose expected value is not the default; distinct = cell.')
 ASSUMPTIONS = ['for U/u the complement table may give A or - (the statement does not cover it)',
                'IUPAC letter sets as in vlib/model.py SETS']
 REQUIRED = {t: ['cells:IUPAC', 'cells:RC', 'cells:AMBIG', 'cells:PROB', 'laws_checked', 'orderings_through_build',
-                'codes_through_map_reverse_strand', 'miri_dump_identical'] for t in ('quick', 'thorough')}
+                'codes_through_map_reverse_strand', 'codes_through_map_inverted_repeat', 'miri_dump_identical',
+                'weights_through_distance', 'dist_pairs_with_identical_ambiguous_codes'] for t in ('quick', 'thorough')}
 LETTERS = [c for c in M.CODES] + [c.lower() for c in M.CODES]
 
 
@@ -39,7 +40,20 @@ def plan(tier, seed, rng, scale):
         for rcmode in (True, False):
             descs.append({'kind': 'orderings', 'k': k, 'rc': rcmode, 'seed': rng.getrandbits(32)})
             descs.append({'kind': 'maprc', 'k': k, 'rc': rcmode, 'seed': rng.getrandbits(32)})
+    for i in range(150 if tier == 'quick' else 3000):
+        descs.append({'kind': 'dist', 'k': rng.choice(ks), 'rc': True, 'ns': rng.randint(2, 7), 'seed': rng.getrandbits(32)})
     return descs
+
+
+def pair_weight(a, b):
+    """Expected contribution of a pair of stored symbols to the distance: 1 - sum_x p_a(x) p_b(x), p uniform over the
+    code's set, N without weight."""
+    from fractions import Fraction
+    sa = M.CODE_SET[a] if a != 'N' else set()
+    sb = M.CODE_SET[b] if b != 'N' else set()
+    if not sa or not sb:
+        return Fraction(1)
+    return 1 - Fraction(len(sa & sb), len(sa) * len(sb))
 
 
 def parse_dump(txt):
@@ -241,6 +255,49 @@ def run_case(desc, ctx):
                         res.count('orderings_through_build')
                         res.nontrivial.append(fingerprint([k, rcmode, order]))
         return res
+    if kind == 'dist':
+        # the weights at their point of use: `ska distance --allow-ambiguous` on tables holding every code
+        from fractions import Fraction
+        ns = desc['ns']
+        rows = G.make_table(rng, k, ns, rng.randint(3, 40), styles=('allcodes', 'allcodes', 'oneambig', 'onlyambig', 'bases'))
+        # a row whose samples all carry the same symbol is set aside as constant before weights are applied: not judged here
+        rows = {a: r for a, r in rows.items() if len(set(r)) > 1}
+        fns = G.write_table_samples(ctx, rows, k, ns) if rows else None
+        if not fns or G.ska_build(ctx, ctx.path('d'), fns, k, True).returncode != 0:
+            res.count('dist_table_skipped')
+            return res
+        hdr, T = G.nk(ctx, ctx.path('d.skf'))
+        if T != rows:
+            res.count('table_readout_mismatch(C01)')
+            return res
+        thr = rng.choice([1, 2, 4])
+        p = ctx.sh(ctx.ska, 'distance', ctx.path('d.skf'), '--allow-ambiguous', '--min-freq', '0', '--threads', thr)
+        res.evals += 1
+        if p.returncode != 0:
+            res.violate('C15:dist-failed', 'distance failed: %s' % p.stderr[-150:], {'rows': rows})
+            return res
+        lines = p.stdout.strip().split('\n')[1:]
+        bad = []
+        idx = 0
+        npairs = 0
+        for i in range(ns):
+            for j in range(i + 1, ns):
+                exp = sum(pair_weight(r[i], r[j]) for r in rows.values() if r[i] != '-' and r[j] != '-')
+                f = lines[idx].split('\t') if idx < len(lines) else ['?', '?', '-1', '-1']
+                idx += 1
+                if f[0] != 's%d' % i or f[1] != 's%d' % j or abs(Fraction(f[2]) - exp) > Fraction(501, 100000):
+                    amb = [(r[i], r[j]) for r in rows.values() if r[i] != '-' and r[j] != '-' and (M.is_ambig(r[i]) or M.is_ambig(r[j]))]
+                    bad.append('%s: distance %s, expected %.4f from uniform weights; ambiguous pairs %s' % (f[:2], f[2], float(exp), amb[:6]))
+                else:
+                    npairs += sum(1 for r in rows.values() if r[i] != '-' and r[j] != '-' and (M.is_ambig(r[i]) or M.is_ambig(r[j])))
+                    if any(r[i] == r[j] and M.is_ambig(r[i]) and r[i] != 'N' for r in rows.values()):
+                        res.count('dist_pairs_with_identical_ambiguous_codes')
+        if bad:
+            res.violate('C15:dist', 'k=%d ns=%d threads=%d: %s' % (k, ns, thr, '; '.join(bad[:2])), {'rows': rows, 'out': p.stdout})
+        else:
+            res.count('weights_through_distance', npairs)
+            res.nontrivial.append(fingerprint([k, rows]))
+        return res
     if kind == 'maprc':
         # a reference k-mer stored in the reverse orientation, sample carrying every code
         for code in M.CODES:
@@ -252,7 +309,9 @@ def run_case(desc, ctx):
             # the sample holds the stored orientation with the set of middles of `code`
             recs = [sk[:h] + b + sk[h:] + 'N' for b in sorted(M.CODE_SET[code])]
             G.write_fa(ctx.path('s.fa'), recs)
-            ctx.write('ref.fa', '>c\n%s\n' % w)
+            # the same k-mer once more on the other strand further along (inverted repeat): each occurrence is oriented on its own
+            inverted = rcmode and rng.random() < 0.6
+            ctx.write('ref.fa', '>c\n%s\n' % (w + 'N' + M.rc(w) if inverted else w))
             p = G.ska_build(ctx, ctx.path('o'), [ctx.path('s.fa')], k, rcmode)
             m_ = ctx.sh(ctx.ska, 'map', ctx.path('ref.fa'), ctx.path('o.skf'))
             res.evals += 1
@@ -261,6 +320,10 @@ def run_case(desc, ctx):
                 continue
             _n, seqs = M.parse_fasta(m_.stdout)
             want = w[:h] + (M.comp_code(code) if flip else code) + w[h + 1:]
+            if inverted:
+                w2 = M.rc(w)
+                want += '-' + w2[:h] + (code if flip else M.comp_code(code)) + w2[h + 1:]
+                res.count('codes_through_map_inverted_repeat')
             if seqs != [want]:
                 res.violate('C15:map:%s' % code, 'k=%d rc=%s: code %s on the %s strand maps to %s, expected %s'
                             % (k, rcmode, code, 'reverse' if flip else 'forward', seqs, want), {'ref': w, 'records': recs})
